@@ -114,6 +114,43 @@ def extract(all_targets=False, repo=REPO):
         return th, ordered
 
 
+def extract_fixtures(repo=REPO):
+    """fact file of the fixtures crate (positive/negative examples of the expected-zero rules), built against
+    the same tree; returns the path or None when the fixtures cannot be built (then the self-test is skipped
+    and says so - it tests the rules, not the repository)."""
+    ensure_driver()
+    os.makedirs(CACHE, exist_ok=True)
+    with open(os.path.join(CACHE, "lock"), "w") as lk:
+        fcntl.flock(lk, fcntl.LOCK_EX)
+        h = hashlib.sha256()
+        h.update(tree_hash(repo).encode())
+        for root, dirs, fs in os.walk(os.path.join(VERIF, "fixtures", "src")):
+            for f in sorted(fs):
+                with open(os.path.join(root, f), "rb") as fh:
+                    h.update(fh.read())
+        th = h.hexdigest()[:24]
+        out_dir = os.path.join(CACHE, "facts", "fx-" + th)
+        done = os.path.join(out_dir, ".done")
+        if not os.path.exists(done):
+            shutil.rmtree(out_dir, ignore_errors=True)
+            src = os.path.join(CACHE, "fx-src")
+            shutil.rmtree(src, ignore_errors=True)
+            shutil.copytree(os.path.join(VERIF, "fixtures"), src, ignore=shutil.ignore_patterns("target", "Cargo.lock"))
+            with open(os.path.join(src, "Cargo.toml")) as fh:
+                toml = fh.read().replace('path = "/repo"', 'path = "%s"' % repo)
+            with open(os.path.join(src, "Cargo.toml"), "w") as fh:
+                fh.write(toml)
+            shutil.copy(os.path.join(repo, "Cargo.lock"), os.path.join(src, "Cargo.lock"))
+            rc, log = run_driver(src, out_dir, os.path.join(CACHE, "target-fx"), False, ["mahf_sa_fixtures", "mahf"])
+            if rc != 0:
+                sys.stdout.write("NOTE: fixtures crate does not build against this tree; rule self-test skipped\n" + log[-1500:])
+                return None
+            with open(done, "w") as fh:
+                fh.write(th)
+        files = sorted(glob.glob(os.path.join(out_dir, "mahf_sa_fixtures-*.json")))
+        return files[0] if files else None
+
+
 # --------------------------------------------------------------------------- known findings
 
 def load_known():
@@ -194,6 +231,9 @@ def run_property(prop, tier, seed):
     else:
         ctx.all_facts = facts
     mod = importlib.import_module(prop.lower())
+    if getattr(mod, "USES_FIXTURES", False):
+        fx = extract_fixtures()
+        ctx.fixture_facts = load_facts([files[0], fx]) if fx else None
     mod.run(ctx)
     if tier == "thorough" and hasattr(mod, "run_thorough"):
         mod.run_thorough(ctx)
